@@ -268,9 +268,9 @@ def verdict(res, n_callers, plan):
 def explore(chk, rng, n_random, n_dfs, tag):
     lines, meta = [], []
 
-    def record(res, n_callers, plan, how):
+    def record(res, n_callers, plan, how, seed=1):
         inp = {"op": "rendezvous", "callers": n_callers, "answers_per_caller": plan["answers"], "stray_answers": plan["stray"], "how": how,
-               "schedule_len": len(res["schedule"])}
+               "seed": seed, "schedule_len": len(res["schedule"])}
         chk.case(dict(inp, schedule=res["schedule"][:400]), kind="%s:%dcallers:%s" % (how, n_callers, tag))
         v = verdict(res, n_callers, plan)
         if v:
@@ -300,7 +300,7 @@ def explore(chk, rng, n_random, n_dfs, tag):
         how = rng.choice(["random", "pct", "random-lines"])
         chooser = simlib.pct_chooser(random.Random(seed), 3, 300) if how == "pct" else None
         res = one_schedule(n_callers, plan, chooser, seed, lines=(how != "random"))
-        record(res, n_callers, plan, how)
+        record(res, n_callers, plan, how, seed)
     out = core.run_driver(lines)
     for (inp, res, n_callers), o in zip(meta, out):
         model = [p.strip() for p in o.split(" | ")] if o else []
@@ -339,6 +339,19 @@ def run(chk):
 
 
 def replay(path):
+    """re-runs the stored schedule on the current tree"""
+    import logging
+    logging.disable(logging.CRITICAL)
     r = json.load(open(path))
-    print(json.dumps(r.get("first") or r.get("broken_theorems") or r.get("correspondence_breaks"), indent=1, default=str)[:3000])
-    return 1 if r.get("first") else 0
+    v = r.get("first")
+    if not v:
+        print(json.dumps(r.get("broken_theorems") or r.get("correspondence_breaks"), indent=1, default=str)[:3000])
+        return 0
+    i = v["input"]
+    plan = {"answers": i["answers_per_caller"], "stray": i["stray_answers"]}
+    res = one_schedule(i["callers"], plan, simlib.replay_chooser(i["schedule"]), i.get("seed", 1), lines=(i["how"] not in ("dfs", "random")))
+    now = verdict(res, i["callers"], plan)
+    print("scenario: %d caller(s), answers %s, %d stray, schedule of %d choices (%s)" % (i["callers"], plan["answers"], plan["stray"], len(i["schedule"]), i["how"]))
+    print("recorded: %s" % v["what"])
+    print("now     : %s" % (("VIOLATED: %s %s" % (now[0], json.dumps(now[1], default=str)[:300])) if now else "the statement holds on this schedule"))
+    return 1 if now else 0
